@@ -45,6 +45,17 @@ func TestC10NoHalt(t *testing.T) {
 	rapid.Check(t, func(t *rapid.T) {
 		spec := chain.GenSpec(t)
 		curSpec = spec
+		// traffic mix: hostile staking/governance traffic, optionally with the registry generator of C17 (role changes,
+		// migrations, foreign listings, key rotations) or the debonding-heavy profile of C15 on top; with a runtime, half
+		// of the cases script whole runtime rounds (chain.roundDriver) in epochs long enough for a round to time out,
+		// be resolved by the backup workers or fail
+		traffic := rapid.SampledFrom([]string{"hostile", "hostile", "hostile+registry", "debond+registry", "hostile+rtheavy", "rtheavy"}).Draw(t, "traffic")
+		if spec.WithRuntime && rapid.Bool().Draw(t, "rtTraffic") {
+			traffic = rapid.SampledFrom([]string{"hostile+rtheavy", "rtheavy"}).Draw(t, "rtTrafficKind")
+			if iv := int64(rapid.SampledFrom([]int{0, 8, 12, 20}).Draw(t, "rtEpochInterval")); iv > spec.EpochInterval {
+				spec.EpochInterval = iv
+			}
+		}
 		w0, err := chain.BuildGenesis(spec)
 		if err != nil {
 			ev.Infra(t, "build genesis: %v", err)
@@ -68,10 +79,7 @@ func TestC10NoHalt(t *testing.T) {
 		}
 		cur = sim
 		defer sim.Close()
-		// traffic mix: hostile staking/governance traffic, optionally with the registry generator of C17 (role changes,
-		// migrations, foreign listings, key rotations) or the debonding-heavy profile of C15 on top
-		traffic := rapid.SampledFrom([]string{"hostile", "hostile", "hostile+registry", "debond+registry"}).Draw(t, "traffic")
-		sim.Profile = strings.Split(traffic, "+")[0]
+		sim.Profile = strings.ReplaceAll(traffic, "+registry", "")
 		withRegistry := strings.HasSuffix(traffic, "+registry")
 		rec.Label("traffic:" + traffic)
 		fail := func(sig, format string, args ...any) {
@@ -82,10 +90,20 @@ func TestC10NoHalt(t *testing.T) {
 		fp = append(fp, fmt.Sprintf("%+v", *spec))
 		nontrivial := false
 		lastEpoch := uint64(0)
+		lastRound, sawDiscrepancy := uint64(0), false
 		for bi := 0; bi < nblocks; bi++ {
 			view, err := chain.NewView(sim.Reps[0])
 			if err != nil {
 				ev.Infra(t, "view: %v", err)
+			}
+			if sim.W.Runtime != nil {
+				if rs, err := view.RuntimeState(sim.W.Runtime.ID); err == nil && rs != nil && rs.LastBlock != nil && rs.LastBlock.Header.Round != lastRound {
+					lastRound = rs.LastBlock.Header.Round
+					rec.Label(fmt.Sprintf("runtime-block:type=%d,discrepancy-before=%v", rs.LastBlock.Header.HeaderType, sawDiscrepancy))
+					sawDiscrepancy = false
+				} else if err == nil && rs != nil && rs.CommitmentPool != nil && rs.CommitmentPool.Discrepancy {
+					sawDiscrepancy = true
+				}
 			}
 			epochChanged := uint64(view.Epoch) != lastEpoch && lastEpoch != 0
 			lastEpoch = uint64(view.Epoch)
@@ -233,6 +251,12 @@ func TestC10NoHalt(t *testing.T) {
 					break
 				}
 				res := proc.TxResults[j]
+				if strings.HasPrefix(string(d.Method), "roothash.") {
+					rec.Label(fmt.Sprintf("tx:%s:ok=%v", d.Method, res.Code == 0))
+					if strings.HasPrefix(d.Note, "scripted round") {
+						rec.Label(fmt.Sprintf("scripted-vote:result=%s/%d", res.Codespace, res.Code))
+					}
+				}
 				if rt := regOf[d]; rt != nil && res.Code == 0 && rt.Unauthorized == "" && rt.OnSuccess != nil {
 					rt.OnSuccess()
 				}
@@ -258,6 +282,9 @@ func TestC10NoHalt(t *testing.T) {
 			if interesting >= 2 {
 				nontrivial = true
 			}
+			for _, k := range chain.RoothashEventKinds(proc) {
+				rec.Label("roothash-block-event:" + k)
+			}
 			if err := sim.AfterCommit(b, proc); err != nil {
 				if strings.Contains(err.Error(), "empty") {
 					rec.Discard("precondition-lost")
@@ -270,6 +297,9 @@ func TestC10NoHalt(t *testing.T) {
 			}
 		}
 		rec.LabelN("blocks", uint64(nblocks))
+		for k, n := range sim.RoundOutcomes() {
+			rec.LabelN("scripted-"+k, uint64(n))
+		}
 		var sample any
 		if nontrivial && rec.WantSample() {
 			sample = map[string]any{"spec": spec, "trace": tail(sim.Trace, 25)}
